@@ -450,6 +450,12 @@ class DataFrameSchemaBackend(PolarsSchemaBackend):
                     )
                     errors_in_order.append(ordered_error)
 
+        if (
+            get_config_context().validation_depth
+            == ValidationDepth.DATA_ONLY
+        ):
+            # strictness and column order are schema-level constraints
+            errors_in_order = []
         if len(errors_in_order) == 1:
             raise errors_in_order[0]
         if errors_in_order:
